@@ -371,7 +371,7 @@ func (fc *FnCtx) havocAll(st *State) {
 	fc.baseAlloc[fc.nbase] = na
 	nh := map[string]string{}
 	for k, v := range st.heap {
-		if fc.isStableKey(k) {
+		if fc.isStableKey(k) || strings.HasPrefix(k, "defer|") || strings.HasPrefix(k, "called|") {
 			nh[k] = v
 		}
 	}
